@@ -1,12 +1,12 @@
 import Driver.Proto
 import Driver.RingStream
+import Driver.ProcStream
 open Driver
 
 def main (args : List String) : IO UInt32 := do
-  let stdin ← IO.getStdin
-  let lines ← readAll stdin #[]
-  let blocks := parseBlocks lines
   match args with
-  | ["model", "ring"] => runModel RingStream.init RingStream.step blocks; return 0
-  | ["mon", "ring"] => runMon RingStream.monInit RingStream.monStep RingStream.monFinish blocks; return 0
+  | ["model", "ring"] => runModel RingStream.init RingStream.step; return 0
+  | ["mon", "ring"] => runMon RingStream.monInit RingStream.monStep RingStream.monFinish; return 0
+  | ["model", "processor"] => runModel ProcStream.init ProcStream.step; return 0
+  | ["mon", "processor"] => runMon ProcStream.monInit ProcStream.monStep ProcStream.monFinish; return 0
   | _ => IO.eprintln "usage: driver model|mon <stream>"; return 2
